@@ -82,22 +82,27 @@ func build(c Case) (*shop.ShellOperator, *queue.TaskQueue, []task.Task) {
 	q := tqs.GetMain()
 	var tasks []task.Task
 	for i, ts := range c.Tasks {
-		bt := task.NewTask(task.TaskType(ts.Type)).WithQueueName("main")
-		bt.Id = fmt.Sprintf("t%d", i)
-		if !ts.NoMeta {
-			var bcs []bctx.BindingContext
-			for _, cs := range ts.Ctxs {
-				bc := bctx.BindingContext{Binding: cs.Name}
-				bc.Metadata.Group = cs.Group
-				bc.Metadata.BindingType = htypes.Schedule
-				bcs = append(bcs, bc)
-			}
-			bt.WithMetadata(task_metadata.HookMetadata{HookName: ts.Hook, BindingContext: bcs, MonitorIDs: append([]string(nil), ts.Monitor...)})
-		}
+		_, _, bt := buildOne(ts, fmt.Sprintf("t%d", i))
 		q.AddLast(bt)
 		tasks = append(tasks, bt)
 	}
 	return op, q, tasks
+}
+
+func buildOne(ts TaskSpec, id string) (string, string, task.Task) {
+	bt := task.NewTask(task.TaskType(ts.Type)).WithQueueName("main")
+	bt.Id = id
+	if !ts.NoMeta {
+		var bcs []bctx.BindingContext
+		for _, cs := range ts.Ctxs {
+			bc := bctx.BindingContext{Binding: cs.Name}
+			bc.Metadata.Group = cs.Group
+			bc.Metadata.BindingType = htypes.Schedule
+			bcs = append(bcs, bc)
+		}
+		bt.WithMetadata(task_metadata.HookMetadata{HookName: ts.Hook, BindingContext: bcs, MonitorIDs: append([]string(nil), ts.Monitor...)})
+	}
+	return ts.Hook, ts.Type, bt
 }
 
 type expect struct {
